@@ -5,7 +5,7 @@
    model/Evaluator.v: custom formulas over their mutable symbol tables. *)
 From Coq Require Import Reals List QArith.
 From Coq Require Import ZArith.
-From V Require Import lib.Common lib.RLib model.DefnSyntax model.Lexer model.Ini model.Callable model.Evaluator proof.C09Syntax proof.C09Lexer proof.IniProofs proof.C09Ini proof.C09 proof.C12.
+From V Require Import lib.Common lib.RLib model.DefnSyntax model.Lexer model.Ini model.Callable model.Evaluator proof.C09Syntax proof.C09Lexer proof.IniProofs proof.IniFile proof.C09Ini proof.C09 proof.C12.
 Import ListNotations.
 
 (* --- syntax: every definition tree (ranges, form instances, nested modifiers) is what its text parses to, and a text
@@ -63,6 +63,11 @@ Theorem c09_file_value_reading : forall idn numv hi h oi key kc k' w1 d w2 x con
   exists v, parse_ini ((hi ++ 91%Z :: h ++ [93%Z]) :: (oi ++ key ++ w1 ++ d :: w2 ++ x) :: conts) = Some [(h, [(xform (rstrip key), v)])]
             /\ read_value idn numv v = read_value idn numv (join [32%Z] (strip x :: map strip conts)).
 Proof. exact file_value_reading. Qed.
+(* a whole file printed from its structure -- any number of sections, options with either delimiter and any blanks around it,
+   blanks / tabs inside keys, any number of continuation lines, headers and keys in the first column -- parses back to exactly
+   that structure: section names in order, keys after optionxform, values as the stripped pieces joined by newlines *)
+Theorem c09_parse_render : forall f, secs_wf [] f -> parse_ini (render_file f) = Some (expect f).
+Proof. exact parse_render. Qed.
 Print Assumptions c09_file_value_reading.
 
 (* --- modifiers: sum / product / pow of any number of argument potentials, each an expression of any nesting depth, are the
